@@ -179,7 +179,12 @@ class BucketMaxStrategy(DrainStrategy):
 
         # Remove existing metrics from its bucket
         if nr_points > 1:
-            self.buckets[nr_points - 2].remove(metric)
+            try:
+                self.buckets[nr_points - 2].remove(metric)
+            except ValueError:
+                # choose_item() has already handed this metric out and pop() is
+                # about to take all of its datapoints, including this one.
+                return
 
         self.buckets[nr_points - 1].append(metric)
 
